@@ -19,6 +19,7 @@ import (
 	"fmt"
 	"os"
 	"path/filepath"
+	"runtime/pprof"
 	"sort"
 	"strings"
 
@@ -882,8 +883,21 @@ func (s *session) invariant0(n *node, st *kv) string {
 	// (3) every tx of a main-chain block is found at its block and position; others are not reported
 	inMain := map[string]bool{}
 	for _, b := range path {
+		ntx := len(b.GetBody().GetTxs())
 		for i, tx := range b.GetBody().GetTxs() {
 			inMain[string(tx.GetHash())] = true
+			// the index record of every tx, read raw (what getTx reads first) …
+			var ti types.TxIdx
+			if v, ok := st.C[string(tx.GetHash())]; !ok || proto.Decode(v, &ti) != nil {
+				return fmt.Sprintf("(3) tx %d of main-chain block no %d is not found", sc.w.txID[string(tx.GetHash())], b.BlockNo())
+			} else if !bytes.Equal(ti.BlockHash, b.BlockHash()) || int(ti.Idx) != i {
+				return fmt.Sprintf("(3) tx %d of main-chain block no %d is reported at another block/position", sc.w.txID[string(tx.GetHash())], b.BlockNo())
+			}
+			// … and the query itself (it decodes the whole block for every tx: in a block of more than 16 txs for the
+			// first, the last and the ones around every multiple of 500)
+			if ntx > 16 && i != 0 && i != ntx-1 && (i+2)%500 > 3 {
+				continue
+			}
 			_, idx, err := chain.VerifC06GetTx(cs, tx.GetHash())
 			if err != nil {
 				return fmt.Sprintf("(3) tx %d of main-chain block no %d is not found", sc.w.txID[string(tx.GetHash())], b.BlockNo())
@@ -1365,6 +1379,11 @@ func min(a, b int) int {
 
 func main() {
 	zerolog.SetGlobalLevel(zerolog.Disabled)
+	if f := os.Getenv("C06_PROF"); f != "" {
+		pf, _ := os.Create(f)
+		pprof.StartCPUProfile(pf)
+		defer pprof.StopCPUProfile()
+	}
 	run := vh.Start("c06", "an operation is non-trivial when it wrote at least one durable unit (feed) or is a crash/restart/dump")
 	w := newWorld(filepath.Join(run.Out, "nodes"))
 	w.prod = w.newProducer()
@@ -1379,6 +1398,9 @@ func main() {
 	for i, sc := range scs {
 		s := &session{run: run, w: w, sc: sc, dir: filepath.Join(w.root, fmt.Sprintf("s%d", i))}
 		fam := strings.SplitN(sc.name, "/", 2)[0]
+		if f := os.Getenv("C06_ONLY"); f != "" && !strings.HasPrefix(sc.name, f) {
+			continue // debugging aid: run one scenario family
+		}
 		if !s.prepare(run.Rng) {
 			run.Count("scenario-discarded(crash-free run drops a block):" + fam)
 			continue
@@ -1386,6 +1408,10 @@ func main() {
 		s.record()
 		nested := run.Thorough() || i%2 == 0
 		torn := run.Thorough()
+		if fam == "big" {
+			// thousands of entries per bulk: no partial flushes, crashes inside the recovery as in the quick tier
+			nested, torn = i%2 == 0, false
+		}
 		s.crashAll(nested, torn)
 		s.lagAll()
 		run.Count("scenario:" + fam)
